@@ -2,6 +2,8 @@
 //! C10 (heuristics), C11 (prefilters), C12 (building blocks), and the
 //! resource judges used by C13 / C17.
 
+#[allow(unused_imports)]
+use crate::prelude::*;
 use crate::case::{Api, Be, Fam};
 use crate::exec::vector_backends;
 use crate::gen;
@@ -678,15 +680,34 @@ pub fn blocks(r: &mut Runner) {
 // ---------------------------------------------------------------------------
 // resource judges (C13, C17)
 
+/// Steps per byte allowed when a vector prefilter/searcher is in use
+/// (default dispatch, forced SSE2, +avx2, wasm simd128): calibrated worst
+/// legitimate value 9.03, see DESIGN.md section 5 (C13).
 pub const K_STEPS: u64 = 24;
+/// Steps per byte allowed when the *portable* packed-pair prefilter is in use
+/// (forced fallback): one call of it legitimately costs up to ~2 steps per
+/// rejected occurrence of the first pair byte in front of its needle offset
+/// (<= 254), and a candidate-free prefix of f*n bytes buys f*n/8 such calls
+/// before the adaptive state gives up, i.e. up to ~113 steps per haystack byte
+/// (measured on the unchanged tree: 24.1 with offset 200 and f = 1/2).
+pub const K_STEPS_PORTABLE: u64 = 192;
 pub const C_STEPS: u64 = 4096;
+
+pub fn k_steps() -> u64 {
+    if crate::exec::vector_backends().is_empty() {
+        K_STEPS_PORTABLE
+    } else {
+        K_STEPS
+    }
+}
 
 /// C13: was the work of the last `run` within K*(n+m)+C?
 pub fn judge_steps(r: &mut Runner, hlen: usize, nlen: usize) -> bool {
     if !crate::hooks::ENABLED || r.ctx.skipped {
         return true;
     }
-    let bound = K_STEPS * (hlen as u64 + nlen as u64) + C_STEPS;
+    let k = k_steps();
+    let bound = k * (hlen as u64 + nlen as u64) + C_STEPS;
     let steps = r.ctx.steps;
     let ratio_milli = steps.saturating_mul(1000) / (hlen as u64 + nlen as u64).max(1);
     if hlen + nlen >= 4096 {
@@ -718,7 +739,7 @@ pub fn judge_steps(r: &mut Runner, hlen: usize, nlen: usize) -> bool {
                     steps,
                     hlen,
                     nlen,
-                    K_STEPS,
+                    k,
                     C_STEPS,
                     bound,
                     steps as f64 / (hlen + nlen).max(1) as f64
